@@ -374,7 +374,9 @@ ScribbledRow(row, pat) == [c \in 1..Len(row) |-> [row[c] EXCEPT !.data = [i \in 
 \* the handler gives every value a pattern of its own: pat + 7 * event + 3 * row + column (+ 50 for before images), all
 \* 0-based, modulo 256 - two values that share storage cannot both hold the bytes expected here
 ScribbledEvs(evs, pat) ==
-  [j \in 1..Len(evs) |-> [evs[j] EXCEPT !.vals = [r \in 1..Len(evs[j].vals) |-> ScribbledRow(evs[j].vals[r], pat + 7 * (j - 1) + 3 * (r - 1))],
+  [j \in 1..Len(evs) |-> [evs[j] EXCEPT !.cs = IF evs[j].cs = <<>> THEN <<>>
+                                                ELSE LET p == (pat + 7 * (j - 1)) % 256 IN <<p, p + 1, p + 2>>,   \* the session charset, rewritten too
+                                         !.vals = [r \in 1..Len(evs[j].vals) |-> ScribbledRow(evs[j].vals[r], pat + 7 * (j - 1) + 3 * (r - 1))],
                                          !.ids  = [r \in 1..Len(evs[j].ids)  |-> ScribbledRow(evs[j].ids[r], pat + 7 * (j - 1) + 3 * (r - 1) + 50)]]]
 \* compare ignoring the float parse-back annotation (it is recomputed from the current bytes)
 NoFb(evs) ==
